@@ -392,6 +392,40 @@ int main(int argc, char** argv) {
             check_primes(n);
         }
     }
+    //---- call histories: the answers must not depend on what was asked before in the same thread (repeated, decreasing and
+    //interleaved arguments; a result cached from a larger argument must not leak into a smaller one)
+    {
+        const int nh = thorough ? 400 : 48;
+        for (int hidx = 0; hidx < nh; ++hidx) {
+            if (!vh::mine(idx++)) {
+                continue;
+            }
+            vh::Rng r = vh::rng_for("history", hidx);
+            const int len = int(r.range(20, 120));
+            const uint32_t top = uint32_t(std::exp(r.uni(std::log(50.0), std::log(60000.0))));
+            uint32_t prev = 2;
+            for (int i = 0; i < len; ++i) {
+                uint32_t n;
+                switch (r.below(6)) {
+                case 0: n = prev; break;                                             //the same argument again
+                case 1: n = prev > 0 ? prev - 1 : 0; break;                          //just below the previous one
+                case 2: n = g_primes[r.below(std::min<size_t>(g_primes.size(), 6000))]; break;   //a prime
+                case 3: n = uint32_t(r.below(top + 1)); break;
+                case 4: n = uint32_t(r.below(20)); break;                            //tiny
+                default: n = prev + uint32_t(r.below(50)); break;
+                }
+                n = std::min(n, top * 2 + 100);
+                switch (r.below(8)) {
+                case 0: check_isprime(n); break;
+                case 1: check_factor(n); break;
+                case 2: check_nextprime(n); break;
+                default: check_primes(n); break;
+                }
+                prev = n;
+            }
+            vh::obs_add("call_histories");
+        }
+    }
     vh::sample("isprime/factor/nextprime/nextpow2/ispow2 for every n in [0,2^18] (quick) / [0,2^22] (thorough) against a sieve; windows of +-512/4096 around 2^16, 2^24, 2^31, 65521^2, 2^32 against Miller-Rabin; e.g. factor(4293001441) = {65521,65521}");
     vh::g.exhaustive = true;
     return vh::finish();
